@@ -1894,60 +1894,83 @@ func ruleUpd3(c *Ctx, r *Reporter) {
 		if swapped {
 			want = -want
 		}
-		// every Put that is reachable from the comparison must sit behind the strict test
+		// every path from the entry to a Put that follows the comparison in program order must have decided either
+		// "the current value is Missing" or the strict sign test (this covers nested ifs, early returns and a || b)
+		missing := c.lookupVar(pkgBsonkit, "Missing")
+		isMissingV := func(v ssa.Value) bool {
+			if u, ok := stripValue(v).(*ssa.UnOp); ok && u.Op == token.MUL {
+				if g, ok := u.X.(*ssa.Global); ok && missing != nil && g.Object() == missing {
+					return true
+				}
+			}
+			return false
+		}
 		puts := 0
 		bad := ""
+		var putBlocks []*ssa.BasicBlock
 		allInstrs(fn, func(in ssa.Instruction) {
-			put, ok := in.(*ssa.Call)
-			if !ok || calleeObj(&put.Call) != putF || !instrReaches(cmp, put) {
-				return
-			}
-			puts++
-			strict := false
-			allInstrs(fn, func(x ssa.Instruction) {
-				iff, ok := x.(*ssa.If)
-				if !ok {
-					return
-				}
-				bo, ok := iff.Cond.(*ssa.BinOp)
-				if !ok || bo.X != ssa.Value(cmp) {
-					return
-				}
-				k, okK := constInt(bo.Y)
-				if !okK {
-					return
-				}
-				for i, s := range iff.Block().Succs {
-					if !(s == put.Block() || s.Dominates(put.Block())) || len(s.Preds) != 1 {
-						continue
-					}
-					op := bo.Op
-					if i == 1 {
-						switch op {
-						case token.LSS:
-							op = token.GEQ
-						case token.LEQ:
-							op = token.GTR
-						case token.GTR:
-							op = token.LEQ
-						case token.GEQ:
-							op = token.LSS
-						default:
-							continue
-						}
-					}
-					// strict sign test: > 0, >= 1 (positive); < 0, <= -1 (negative)
-					pos := (op == token.GTR && k == 0) || (op == token.GEQ && k == 1)
-					neg := (op == token.LSS && k == 0) || (op == token.LEQ && k == -1)
-					if (want > 0 && pos) || (want < 0 && neg) {
-						strict = true
-					}
-				}
-			})
-			if !strict && bad == "" {
-				bad = fmt.Sprintf("the Put at %s is not guarded by a strict sign test of the comparison", c.pos(put.Pos()))
+			if put, ok := in.(*ssa.Call); ok && calleeObj(&put.Call) == putF {
+				puts++
+				putBlocks = append(putBlocks, put.Block())
 			}
 		})
+		isPutBlock := func(b *ssa.BasicBlock) bool {
+			for _, pb := range putBlocks {
+				if pb == b {
+					return true
+				}
+			}
+			return false
+		}
+		paths, ends, trunc := enumPaths(fn.Blocks[0], nil, isPutBlock, 4096)
+		if trunc {
+			r.unk(key, c.pos(cmp.Pos()), "too many paths")
+			continue
+		}
+		for pi, p := range paths {
+			if ends[pi] == nil || !isPutBlock(ends[pi]) {
+				continue
+			}
+			justified := false
+			for _, d := range p {
+				bo, ok := d.cond.(*ssa.BinOp)
+				if !ok {
+					continue
+				}
+				// current == Missing established
+				if (bo.Op == token.EQL || bo.Op == token.NEQ) && (isMissingV(bo.X) || isMissingV(bo.Y)) && (bo.Op == token.EQL) == d.taken {
+					justified = true
+				}
+				// strict sign of the comparison established
+				if bo.X == ssa.Value(cmp) {
+					if k, okK := constInt(bo.Y); okK {
+						op := bo.Op
+						if !d.taken {
+							switch op {
+							case token.LSS:
+								op = token.GEQ
+							case token.LEQ:
+								op = token.GTR
+							case token.GTR:
+								op = token.LEQ
+							case token.GEQ:
+								op = token.LSS
+							default:
+								op = token.ILLEGAL
+							}
+						}
+						pos := (op == token.GTR && k == 0) || (op == token.GEQ && k == 1)
+						neg := (op == token.LSS && k == 0) || (op == token.LEQ && k == -1)
+						if (want > 0 && pos) || (want < 0 && neg) {
+							justified = true
+						}
+					}
+				}
+			}
+			if !justified && bad == "" {
+				bad = "a path reaches the Put without having established that the field is missing or that the comparison is strictly on the replacing side"
+			}
+		}
 		n++
 		if puts == 0 {
 			r.bad(key, c.pos(cmp.Pos()), "no bsonkit.Put after the comparison")
@@ -2368,91 +2391,104 @@ func init() {
 	register(&Rule{ID: "LOG-5", Doc: "$push records element-wise changes only for an append at the end: in the function registered as $push the Changes.Record calls whose path ends in a computed index are dominated by the true edge of an equality between the insertion position and len(original array); an insertion elsewhere shifts elements, so only the whole array describes the change", Run: ruleLog5})
 }
 
-func rulePanic6(c *Ctx, r *Reporter) {
-	n := 0
-	for _, fn := range c.repoFuncs() {
-		allInstrs(fn, func(in ssa.Instruction) {
-			sl, ok := in.(*ssa.Slice)
-			if !ok || sl.Low == nil || sl.High == nil {
-				return
+// panic6Scan examines the double-ended cuts s[a : len(s)-b] of one function: how many there are and which are unguarded.
+func panic6Scan(fn *ssa.Function, report func(sl *ssa.Slice, a, b int64, safe bool, prefixes, suffixes []string)) {
+	allInstrs(fn, func(in ssa.Instruction) {
+		sl, ok := in.(*ssa.Slice)
+		if !ok || sl.Low == nil || sl.High == nil {
+			return
+		}
+		a, okA := constInt(sl.Low)
+		if !okA || a <= 0 {
+			return
+		}
+		hb, ok := sl.High.(*ssa.BinOp)
+		if !ok || hb.Op != token.SUB {
+			return
+		}
+		b, okB := constInt(hb.Y)
+		lc, okL := hb.X.(*ssa.Call)
+		if !okB || b <= 0 || !okL {
+			return
+		}
+		if bi, ok := lc.Call.Value.(*ssa.Builtin); !ok || bi.Name() != "len" || !(lc.Call.Args[0] == sl.X || sameSource(lc.Call.Args[0], sl.X)) {
+			return
+		}
+		var prefixes, suffixes []string
+		for _, blk := range fn.Blocks {
+			iff, ok := blk.Instrs[len(blk.Instrs)-1].(*ssa.If)
+			if !ok {
+				continue
 			}
-			a, okA := constInt(sl.Low)
-			if !okA || a <= 0 {
-				return
-			}
-			hb, ok := sl.High.(*ssa.BinOp)
-			if !ok || hb.Op != token.SUB {
-				return
-			}
-			b, okB := constInt(hb.Y)
-			lc, okL := hb.X.(*ssa.Call)
-			if !okB || b <= 0 || !okL {
-				return
-			}
-			if bi, ok := lc.Call.Value.(*ssa.Builtin); !ok || bi.Name() != "len" || !(lc.Call.Args[0] == sl.X || sameSource(lc.Call.Args[0], sl.X)) {
-				return
-			}
-			n++
-			key := fmt.Sprintf("%s:slice [%d : len-%d]", funcName(fn), a, b)
-			// facts on dominating edges
-			var prefixes, suffixes []string
-			lenOK := false
-			for _, blk := range fn.Blocks {
-				iff, ok := blk.Instrs[len(blk.Instrs)-1].(*ssa.If)
-				if !ok {
+			for i, s := range blk.Succs {
+				if len(s.Preds) != 1 || !(s == sl.Block() || s.Dominates(sl.Block())) {
 					continue
 				}
-				for i, s := range blk.Succs {
-					if len(s.Preds) != 1 || !(s == sl.Block() || s.Dominates(sl.Block())) {
+				cond, neg := iff.Cond, i == 1
+				for {
+					if u, ok := cond.(*ssa.UnOp); ok && u.Op == token.NOT {
+						cond, neg = u.X, !neg
 						continue
 					}
-					cond, neg := iff.Cond, i == 1
-					for {
-						if u, ok := cond.(*ssa.UnOp); ok && u.Op == token.NOT {
-							cond, neg = u.X, !neg
-							continue
-						}
-						break
-					}
-					if call, ok := cond.(*ssa.Call); ok && !neg {
-						if f := calleeObj(&call.Call); f != nil && f.Pkg() != nil && f.Pkg().Path() == "strings" && len(call.Call.Args) == 2 && (call.Call.Args[0] == sl.X || sameSource(call.Call.Args[0], sl.X)) {
-							if p, ok := constString(call.Call.Args[1]); ok {
-								switch f.Name() {
-								case "HasPrefix":
-									prefixes = append(prefixes, p)
-								case "HasSuffix":
-									suffixes = append(suffixes, p)
-								}
+					break
+				}
+				if call, ok := cond.(*ssa.Call); ok && !neg {
+					if f := calleeObj(&call.Call); f != nil && f.Pkg() != nil && f.Pkg().Path() == "strings" && len(call.Call.Args) == 2 && (call.Call.Args[0] == sl.X || sameSource(call.Call.Args[0], sl.X)) {
+						if p, ok := constString(call.Call.Args[1]); ok {
+							switch f.Name() {
+							case "HasPrefix":
+								prefixes = append(prefixes, p)
+							case "HasSuffix":
+								suffixes = append(suffixes, p)
 							}
 						}
 					}
 				}
 			}
-			lo, _ := lenInterval(fn, func(v ssa.Value) bool { return v == sl.X || sameSource(v, sl.X) }, sl.Block())
-			if lo >= a+b {
-				lenOK = true
-			}
-			safe := lenOK
-			for _, p := range prefixes {
-				for _, q := range suffixes {
-					if int64(len(p)) < a || int64(len(q)) < b {
-						continue
-					}
-					overlap := false
-					for k := 1; k <= len(p) && k <= len(q); k++ {
-						if p[len(p)-k:] == q[:k] {
-							overlap = true
-						}
-					}
-					if !overlap {
-						safe = true
+		}
+		lo, _ := lenInterval(fn, func(v ssa.Value) bool { return v == sl.X || sameSource(v, sl.X) }, sl.Block())
+		safe := lo >= a+b
+		for _, p := range prefixes {
+			for _, q := range suffixes {
+				if int64(len(p)) < a || int64(len(q)) < b {
+					continue
+				}
+				overlap := false
+				for k := 1; k <= len(p) && k <= len(q); k++ {
+					if p[len(p)-k:] == q[:k] {
+						overlap = true
 					}
 				}
+				if !overlap {
+					safe = true
+				}
 			}
+		}
+		report(sl, a, b, safe, prefixes, suffixes)
+	})
+}
+
+func rulePanic6(c *Ctx, r *Reporter) {
+	n := 0
+	for _, fn := range c.repoFuncs() {
+		panic6Scan(fn, func(sl *ssa.Slice, a, b int64, safe bool, prefixes, suffixes []string) {
+			n++
+			key := fmt.Sprintf("%s:slice [%d : len-%d]", funcName(fn), a, b)
 			r.check(safe, key, c.pos(sl.Pos()), "reached only after both the prefix and the suffix test succeeded (they cannot overlap), so len(s) >= a+b", fmt.Sprintf("not dominated by both a HasPrefix (found %q) and a HasSuffix (found %q) success nor by a length test: an input shorter than %d characters that passes the remaining test makes the bounds cross and the slice panics", prefixes, suffixes, a+b))
 		})
 	}
-	r.guard(n, 1, "double-ended string cuts")
+	// the number of such cuts may legitimately be zero (strings.CutPrefix/CutSuffix need no bounds): the rule's
+	// eyesight is checked on an embedded example instead of a count
+	r.trivial("double-ended string cuts", "-", fmt.Sprintf("%d found", n))
+	positiveCheck(r, "PANIC-6 unguarded double-ended cut", "CutBothBad", "CutBothGood", func(fn *ssa.Function) int {
+		k := 0
+		panic6Scan(fn, func(_ *ssa.Slice, _, _ int64, safe bool, _, _ []string) {
+			if !safe {
+				k++
+			}
+		})
+		return k
+	})
 }
 
 func ruleLog5(c *Ctx, r *Reporter) {
@@ -2855,6 +2891,10 @@ func ruleErr1(c *Ctx, r *Reporter) {
 				caller = strings.Replace(caller, ")", "", 1)
 				pair := caller + " -> " + callee
 				key := "dropped result: " + pair
+				if ci, ok := in.(ssa.CallInstruction); ok && isReadOnlyHandleClose(ci) {
+					r.ok(key, c.pos(in.Pos()), "closing a handle obtained from os.Open (read-only): nothing to lose")
+					continue
+				}
 				if reason, ok := err1AnyCaller[callee]; ok {
 					r.ok(key, c.pos(in.Pos()), "best-effort clean-up call: "+reason)
 					continue
